@@ -30,7 +30,7 @@ def gen_fwd_op(rng, table, inp=None, mode=None, cap=None, argmask=None, cursor=N
         if k < 0.6:
             tfl = [0] * n
         else:
-            tfl = [rng.choice([0, 0, 0, 1, 2, 4, 8, 0x10, 0x2000, 0x4000, 0x8000]) for _ in range(n)]
+            tfl = [rng.choice([0, 0, 0, 1, 2, 4, 8, 0x10, 0x400, 0x800, 0x1000, 0x2000, 0x8000]) for _ in range(n)]
         tf = common.wide(tfl)
     sp = "-"
     if argmask & 2:
@@ -59,6 +59,7 @@ class Call:
         self.trace_detail = ""
         self.eok = None
         self.nn = None
+        self.failed = ""
 
 
 def run_and_trace(exe, cases, setup_trace=True, validate=True, timeout=180, leak=False):
@@ -77,7 +78,7 @@ def run_and_trace(exe, cases, setup_trace=True, validate=True, timeout=180, leak
         if lines:
             out = common.run_model(lines)
             for k, m in zip(todo, out):
-                k.trace_ok, k.trace_detail, k.eok, k.nn = trace.compare(k.op, k.R, m)
+                k.trace_ok, k.trace_detail, k.eok, k.nn, k.failed = trace.compare(k.op, k.R, m)
     return calls
 
 
